@@ -208,10 +208,12 @@ pub fn backend(listener: TcpListener, rec: Arc<Mutex<Record>>) {
 pub const OWNED: [&[u8]; 5] = [b"x-forwarded-for", b"forwarded", b"x-real-ip", b"x-request-id", b"sozu-id"];
 
 pub fn judge(r: &Record, front: SocketAddr, statuses: &[u16], out: &mut Out) {
-    judge_proto(r, front, statuses, b"http", out)
+    judge_proto(r, front, statuses, b"http", true, out)
 }
 
-pub fn judge_proto(r: &Record, front: SocketAddr, statuses: &[u16], proto: &[u8], out: &mut Out) {
+/// `same_id`: every request of the case was sent on ONE HTTP/1.1 client connection, whose requests
+/// share the session's correlation id (HTTP/2 streams each have their own)
+pub fn judge_proto(r: &Record, front: SocketAddr, statuses: &[u16], proto: &[u8], same_id: bool, out: &mut Out) {
     for m in &r.malformed {
         out.viol("bb-malformed", &format!("the backend received bytes that are not a well-formed request: {:?}", String::from_utf8_lossy(m)));
     }
@@ -233,7 +235,7 @@ pub fn judge_proto(r: &Record, front: SocketAddr, statuses: &[u16], proto: &[u8]
         // must carry the id sozu gave the first one (a request sozu did not parse
         // itself cannot know it)
         if let Some(first) = ids.first() {
-            if first != sid[0] {
+            if same_id && first != sid[0] {
                 out.viol("bb-unrouted", "a request read by the backend carries a correlation id that is not this connection's");
             }
         }
